@@ -489,7 +489,7 @@ def oracle_decompose(r):
             if keep is not None and keep(o):
                 continue
             if cirq.decompose_once(o, None) is not None:
-                raise Violation(f"cirq.decompose(keep={mode}) left a decomposable operation that keep() rejects: {o!r}\n{_desc(b)}"[:900])
+                raise Violation(f"cirq.decompose(keep={mode}) left a decomposable operation that keep() rejects\n{o!r}\n{_desc(b)}"[:900])
         kind, got = _ops_effect(b, rec, qubits, is_u)
         if kind is None:
             lab["rec_" + got] = True
